@@ -151,13 +151,17 @@ pub fn c13(tier: Tier) -> i32 {
     let mut tot = Totals::empty();
     let mut names = vec![];
     for format in [Format::Fasta, Format::Fastq] {
-        let fams = crate::c_inputs::families(format, if tier == Tier::Quick { Tier::Quick } else { Tier::Thorough });
+        let mut fams = crate::c_inputs::families(format, if tier == Tier::Quick { Tier::Quick } else { Tier::Thorough });
+        // three instantiations x four ways of obtaining every record: one line less than C01/C02
+        if let crate::c_inputs::Family::Struct(s) = &mut fams[1] {
+            s.max_lines -= 1;
+        }
         for fam in fams.iter() {
             // quick: class strings one shorter than C01/C02 (three ways of obtaining each record)
             // class strings one (thorough: two) shorter than C01/C02: three ways of obtaining each record,
             // two instantiations of the data class
             let count = match fam {
-                crate::c_inputs::Family::Class { format, maxlen } => class_count(*format, maxlen - if tier == Tier::Quick { 1 } else { 2 }),
+                crate::c_inputs::Family::Class { format, maxlen } => class_count(*format, maxlen - 2),
                 f => f.count(),
             };
             names.push(fam.name());
@@ -196,6 +200,27 @@ pub fn c13(tier: Tier) -> i32 {
                                 if k != singles.len() {
                                     problems.push(format!("record sets delivered {} records, next() {}", k, singles.len()));
                                 }
+                                // and via exact-count record sets (the buffer grows while the set fills)
+                                for n in [2usize, 3] {
+                                    let mut rdr = seq_io::fasta::Reader::with_capacity(&data[..], cap);
+                                    let mut set = seq_io::fasta::RecordSet::default();
+                                    let mut k = 0;
+                                    while let Some(Ok(())) = rdr.read_record_set_exact(&mut set, Some(n)) {
+                                        for r in &set {
+                                            fasta_views(&r, &mut |m| problems.push(format!("exact({}) record set: {}", n, m)));
+                                            if singles.get(k) != Some(&r.to_owned_record()) {
+                                                problems.push(format!("record {} from an exact({}) record set differs from the one returned by next()", k, n));
+                                            }
+                                            k += 1;
+                                        }
+                                        if set.is_empty() {
+                                            break;
+                                        }
+                                    }
+                                    if k != singles.len() {
+                                        problems.push(format!("exact({}) record sets delivered {} records, next() {}", n, k, singles.len()));
+                                    }
+                                }
                             }
                             Format::Fastq => {
                                 let mut rdr = seq_io::fastq::Reader::with_capacity(&data[..], cap);
@@ -224,6 +249,26 @@ pub fn c13(tier: Tier) -> i32 {
                                 // an invalid record ahead may hide the records of its batch (C04)
                                 if k > errs_single {
                                     problems.push(format!("record sets delivered {} records, next() {}", k, errs_single));
+                                }
+                                for n in [2usize, 3] {
+                                    let mut rdr = seq_io::fastq::Reader::with_capacity(&data[..], cap);
+                                    let mut set = seq_io::fastq::RecordSet::default();
+                                    let mut k = 0;
+                                    while let Some(Ok(())) = rdr.read_record_set_exact(&mut set, Some(n)) {
+                                        for r in &set {
+                                            fastq_views(&r, &mut |m| problems.push(format!("exact({}) record set: {}", n, m)));
+                                            if singles.get(k) != Some(&r.to_owned_record()) {
+                                                problems.push(format!("record {} from an exact({}) record set differs from the one returned by next()", k, n));
+                                            }
+                                            k += 1;
+                                        }
+                                        if set.is_empty() {
+                                            break;
+                                        }
+                                    }
+                                    if k > errs_single {
+                                        problems.push(format!("exact({}) record sets delivered {} records, next() {}", n, k, errs_single));
+                                    }
                                 }
                             }
                         }));
@@ -259,7 +304,7 @@ pub fn c13(tier: Tier) -> i32 {
         Report {
             property: "C13".into(),
             tier: tier.name().into(),
-            rule: format!("every record of every input of [{}] in three instantiations of the data class (ASCII letters; non-UTF-8 / split multi-byte; TAB, VT, FF, ';' as data), every capacity 3..len+2 and 64 KiB, obtained via next(), to_owned_record() and read_record_set: algebraic relations between head/seq/seq_lines/num_seq_lines/full_seq/owned_seq/id*/desc* and the owned copies; non-trivial = run with at least one record", names.join("; ")),
+            rule: format!("every record of every input of [{}] in three instantiations of the data class (ASCII letters; non-UTF-8 / split multi-byte; TAB, VT, FF, ';' as data), every capacity 3..len+2 and 64 KiB, obtained via next(), to_owned_record(), read_record_set and read_record_set_exact(2|3): algebraic relations between head/seq/seq_lines/num_seq_lines/full_seq/owned_seq/id*/desc* and the owned copies; non-trivial = run with at least one record", names.join("; ")),
             exhaustive: true,
             assumptions: std_assumptions(),
             extra: json!({"states_note": STATES_NOTE}),
@@ -514,6 +559,94 @@ pub fn c20(tier: Tier) -> i32 {
             l.samples.push(json!({"input": esc(data), "step_patterns": 1u64 << (inputs[idx as usize].1 + 2)}));
         }
     });
+    // Reused record sets (both formats): a later, smaller batch leaves stale entries behind; the
+    // iterator contracts must hold on every batch (plain loop with one set, exact(3) then exact(1) ...)
+    let mut reuse_inputs: Vec<(Format, Vec<u8>)> = vec![];
+    for format in [Format::Fasta, Format::Fastq] {
+        for f in rec_files(format, 3, &[0], &[0], false) {
+            if !f.crlf && f.final_term {
+                reuse_inputs.push((format, f.bytes()));
+            }
+        }
+        for f in long_files(format, false) {
+            if !f.crlf && f.final_term && f.trail_blank == 0 {
+                reuse_inputs.push((format, f.bytes()));
+            }
+        }
+    }
+    let t_reuse = par_sweep(reuse_inputs.len() as u64, 4, |idx, l| {
+        let (format, data) = &reuse_inputs[idx as usize];
+        let caps: Vec<usize> = (3..=data.len() + 2).step_by(if tier == Tier::Quick { 3 } else { 1 }).collect();
+        for cap in caps {
+            for pattern in [&[0usize][..], &[3, 1][..], &[2, 3, 1][..]] {
+                let mut problems: Vec<String> = vec![];
+                let mut batches = 0u64;
+                macro_rules! walk {
+                    ($m:ident) => {{
+                        let mut rdr = seq_io::$m::Reader::with_capacity(&data[..], cap);
+                        let mut set = seq_io::$m::RecordSet::default();
+                        let mut i = 0;
+                        loop {
+                            let n = pattern[i % pattern.len()];
+                            i += 1;
+                            let r = if n == 0 { rdr.read_record_set(&mut set) } else { rdr.read_record_set_exact(&mut set, Some(n)) };
+                            if !matches!(r, Some(Ok(()))) || i > 64 {
+                                break;
+                            }
+                            batches += 1;
+                            let mut it = (&set).into_iter();
+                            let mut left = set.len();
+                            loop {
+                                let (a, b) = it.size_hint();
+                                if a > left || b.map_or(false, |b| b < left) {
+                                    problems.push(format!("{} RecordSetIter (reused set, batch {}): size_hint() = {:?} with {} items to come", stringify!($m), i, (a, b), left));
+                                }
+                                match it.next() {
+                                    Some(_) if left > 0 => left -= 1,
+                                    Some(_) => {
+                                        problems.push(format!("{} RecordSetIter (reused set): yields more than len() items", stringify!($m)));
+                                        break;
+                                    }
+                                    None => break,
+                                }
+                            }
+                            if left != 0 {
+                                problems.push(format!("{} RecordSetIter (reused set): ended with {} items missing", stringify!($m), left));
+                            }
+                            let (a, b) = it.size_hint();
+                            if a > 0 || b.map_or(false, |b| b > 0 && it.next().is_some()) {
+                                problems.push(format!("{} RecordSetIter (reused set): size_hint() = {:?} after the end", stringify!($m), (a, b)));
+                            }
+                            if it.next().is_some() {
+                                problems.push(format!("{} RecordSetIter (reused set): item after the end", stringify!($m)));
+                            }
+                        }
+                    }};
+                }
+                let res = catch_unwind(AssertUnwindSafe(|| match format {
+                    Format::Fasta => walk!(fasta),
+                    Format::Fastq => walk!(fastq),
+                }));
+                if let Err(e) = res {
+                    problems.push(format!("panic: {}", crate::rdr::panic_msg(e)));
+                }
+                l.evals += 1;
+                l.nontrivial += 1;
+                l.count("reused_set_batches_walked", batches);
+                if let Some(p) = problems.first() {
+                    let class: String = p.split(|c: char| c.is_ascii_digit() || c == '=').next().unwrap_or("").trim().to_string();
+                    l.violation(Violation {
+                        property: "C20".into(),
+                        sig: format!("{}|{}", format.name(), class),
+                        detail: format!("input {:?} cap {} batch pattern {:?}: {}", esc(data), cap, pattern, p),
+                        weight: (data.len() * 100_000 + cap.min(99_999)) as u64,
+                        replay: json!({"kind": "iters", "format": format.name(), "input": data, "input_escaped": esc(data), "cap": cap, "pattern": pattern}),
+                    });
+                }
+            }
+        }
+    });
+    tot.merge(t_reuse);
     // FASTQ: RecordSetIter, RecordsIter, RecordsIntoIter incl. after an error
     let fq: Vec<Vec<u8>> = rec_files(Format::Fastq, 3, &[0], &[0, 2], true).iter().map(|f| f.bytes()).collect();
     let t2 = par_sweep(fq.len() as u64, 8, |idx, l| {
@@ -605,7 +738,7 @@ pub fn c20(tier: Tier) -> i32 {
         Report {
             property: "C20".into(),
             tier: tier.name().into(),
-            rule: format!("every FASTA record with m = 0..{} sequence lines over the line menu {{x, empty, xy, x<CR>y}} x LF/CRLF x final terminator x followed by another record or not, obtained from a record set under 3 capacities: ALL 2^(m+2) sequences of next/next_back steps on seq_lines() with len()/size_hint() checked after every step, items, meeting ends, sticky end; adaptor menu (enumerate().rev(), rev().enumerate(), zip, skip(0..n+1), collect, rposition, len) on the iterator after every (front, back) prefix; RecordSetIter (both formats) size hint + fused; RecordsIter / RecordsIntoIter end sticky incl. after an error (FASTQ defect family, {} files)", max_lines, fq.len()),
+            rule: format!("every FASTA record with m = 0..{} sequence lines over the line menu {{x, empty, xy, x<CR>y}} x LF/CRLF x final terminator x followed by another record or not, obtained from a record set under 3 capacities: ALL 2^(m+2) sequences of next/next_back steps on seq_lines() with len()/size_hint() checked after every step, items, meeting ends, sticky end; adaptor menu (enumerate().rev(), rev().enumerate(), zip, skip(0..n+1), collect, rposition, len) on the iterator after every (front, back) prefix; RecordSetIter (both formats) size hint + fused, also on ONE set reused over all batches (plain loop; exact(3),exact(1),...; exact(2),(3),(1),...) at every (third) capacity so that later, smaller batches carry stale entries; RecordsIter / RecordsIntoIter end sticky incl. after an error (FASTQ defect family, {} files)", max_lines, fq.len()),
             exhaustive: true,
             assumptions: vec!["line contents are drawn from a menu; the iterator logic depends only on the number of lines".into()],
             extra: json!({"states_note": "states = (record, consumed-front, consumed-back) triples; transitions = iterator steps executed"}),
